@@ -188,6 +188,77 @@ Reverse(Tbl, s, centerp) ==
                       IN <<"ok", 0, northp, p, Limbs(ic + x0, SubSeq(ds, 1, p), centerp),
                               Limbs(ir + y0, SubSeq(ds, p + 1, 2 * p), centerp)>>
 
+(* ------------------------------------------------------------------------ *)
+(* Forward with a SUPPLIED latitude (the seven-argument overload).           *)
+(* Documentation: "the latitude is used to determine the latitude band and   *)
+(* this is checked for consistency using the same tests as Reverse", and     *)
+(* "GeographicErr if lat is inconsistent with the given UTM coordinates".     *)
+(* The test of Reverse is the geometric one: some portion of the 100 km      *)
+(* block lies within the band.  latk = supplied latitude in micro-degrees    *)
+(* (an exact lattice value).  Bands are 8 degrees from -80, include their    *)
+(* southern edges, and are clipped to C..X.                                   *)
+(* ------------------------------------------------------------------------ *)
+BandOfMicro(k) == LET b == FloorDiv(k, 8000000) IN IF b < -10 THEN -10 ELSE IF b > 9 THEN 9 ELSE b
+\* BandEdge5nm: a latitude exactly on a band edge (including the equator, where the hemisphere
+\* of the point decides) is within 5 nm of the edge, so the neighbouring band is admissible too.
+LatBandSet(k) == LET b == BandOfMicro(k) IN IF k = b * 8000000 /\ b > -10 THEN {b - 1, b} ELSE {b}
+
+ForwardLat(Tbl, zone, northp0, x, y, latk, prec) ==
+  LET ck == Check(TRUE, northp0, x, y)
+      Out(b) == LET np == ck[2]
+                    ic == FloorDiv(ck[3][1], Tile) - 1
+                    yh == FloorDiv(ck[4][1], Tile)
+                    fc == IF ic < 4 THEN 3 - ic ELSE ic - 4
+                    rr == IF np THEN yh ELSE 99 - yh              \* row counted from the equator
+                    be == IF np THEN b ELSE -b - 1                \* band counted from the equator
+                IN IF (b >= 0) = np /\ BlockInBand(Tbl, fc, rr, be)
+                   THEN Forward(zone, northp0, x, y, prec, {b}) ELSE {<<"throw">>}
+  IN IF zone <= 0 \/ zone > 60 \/ prec < -1 \/ prec > 11 \/ ck = <<"throw">>
+     THEN Forward(zone, northp0, x, y, prec, {0})               \* UPS: latitude ignored; otherwise throw
+     ELSE UNION {Out(b) : b \in LatBandSet(latk)}
+
+(* ------------------------------------------------------------------------ *)
+(* Grid zones.  Longitude interval [lo, hi) in degrees of the grid zone      *)
+(* (zone 1..60, ib = index of the band letter in C..X, V = 17, X = 19) with  *)
+(* the Norway and Svalbard exceptions of the standard; <<0, 0>> for the      *)
+(* designations 32X, 34X, 36X, which the standard does not have (the         *)
+(* documentation does not say which point they give: NoSuchGridZone).        *)
+(* ------------------------------------------------------------------------ *)
+GridZoneLon(zone, ib) ==
+  CASE ib = 17 /\ zone = 31 -> <<0, 3>>
+    [] ib = 17 /\ zone = 32 -> <<3, 12>>
+    [] ib = 19 /\ zone = 31 -> <<0, 9>>
+    [] ib = 19 /\ zone = 33 -> <<9, 21>>
+    [] ib = 19 /\ zone = 35 -> <<21, 33>>
+    [] ib = 19 /\ zone = 37 -> <<33, 42>>
+    [] ib = 19 /\ zone \in {32, 34, 36} -> <<0, 0>>
+    [] OTHER -> <<6 * zone - 186, 6 * zone - 180>>
+
+\* limbs of half-micrometres -> <<metres, exact>>
+HalfUmMetres(L) == <<L[1] * 500 + L[2] \div 2000000, L[2] % 2000000 = 0>>
+
+(* ------------------------------------------------------------------------ *)
+(* Decode (syntactic split).  Documentation: "0-2 digits followed by 1 or 3  *)
+(* letters, followed (in the case of 3 letters) by an even number (possibly  *)
+(* 0) of digits"; I and O are not letters; "INV..." gives the first three    *)
+(* characters as grid zone and empty parts.  <<"throw">> or                   *)
+(* <<"ok", gridzone, block, easting, northing>>.                              *)
+(* ------------------------------------------------------------------------ *)
+IsAlpha(c) == LET u == Upper(c) IN u >= 65 /\ u <= 90 /\ u # 73 /\ u # 79
+RECURSIVE NAlpha(_, _)
+NAlpha(s, i) == IF i <= Len(s) /\ IsAlpha(s[i]) THEN NAlpha(s, i + 1) ELSE i - 1
+DecodeSyn(s) ==
+  LET n == Len(s)
+      nd == NDig(s, 1)
+      pa == NAlpha(s, nd + 1)          \* last letter position
+      na == pa - nd
+      rest == SubSeq(s, pa + 1, n)
+      h == Len(rest) \div 2
+  IN IF n >= 3 /\ UpperS(SubSeq(s, 1, 3)) = <<73, 78, 86>> THEN <<"ok", SubSeq(s, 1, 3), <<>>, <<>>, <<>> >>
+     ELSE IF nd > 2 \/ na \notin {1, 3} \/ ~AllDigits(rest) \/ (na = 1 /\ rest # <<>>) \/ Len(rest) % 2 = 1 THEN <<"throw">>
+     ELSE <<"ok", SubSeq(s, 1, nd + 1), SubSeq(s, nd + 2, pa), SubSeq(rest, 1, h), SubSeq(rest, h + 1, 2 * h)>>
+
+
 IsPrefixOf(p, s) == Len(p) <= Len(s) /\ SubSeq(s, 1, Len(p)) = p
 \* per-coordinate prefix law between two MGRS strings with the same head (zone+letters)
 PrefixOK(lo, hi, h) ==
